@@ -1114,7 +1114,7 @@ func (s *State) evalForList(fe *ast.ForExpression, list object.Object, name stri
 				return s.Errorf("for loop unexpected control type %s", r.ControlType.String())
 			}
 		default:
-			lastEval = nextEval
+			lastEval = object.CopyRegister(nextEval) // the value now: an outer register can change before the loop ends.
 		}
 	}
 	return lastEval
@@ -1151,7 +1151,7 @@ func (s *State) evalForExpression(fe *ast.ForExpression) object.Object {
 					return r
 				}
 			default:
-				lastEval = nextEval
+				lastEval = object.CopyRegister(nextEval) // the value now: an outer register can change before the loop ends.
 			}
 		case object.FALSE, object.NULL:
 			if log.LogVerbose() {
